@@ -1,11 +1,15 @@
 import SqlProofs.AccessorSpec
 import SqlModel.KwNorm
+import SqlProofs.LeadingKeyword
 /-!
 # C18 — Statement.get_type() names the statement's leading DML/DDL keyword
 
 `get_type` on trees: the first top-level child that is neither whitespace nor a comment decides; DML/DDL → its normalised value
 (`kwNorm` = upper-cased with whitespace runs collapsed, so `create  or\nreplace` gives `CREATE OR REPLACE`), nothing → `UNKNOWN`.
-That the leading keyword is still that child after grouping, and the CTE walk for the grammar's WITH statements, are sampled (oracle + S-ACC).
+That the leading keyword is still that child after all 25 grouping passes is `leading_keyword_survives_grouping` (hypothesis `LeadHyp`,
+decidable: the next token is not `::` / a time-zone cast and the statement has no `:=` — each exclusion is a real absorption of the keyword,
+witnessed on the code: `select::int`, `select at time zone 'utc' as x`, `select x := y z:=;`); `get_type_after_grouping` composes the two.
+The CTE walk for the grammar's WITH statements is sampled (oracle + S-ACC).
 Known finding KF-C18-1: a keyword written directly before `(` or `.` is lexed as a Name (`select(1)`, `select .5`).
 -/
 namespace Sql.C18
@@ -23,6 +27,19 @@ theorem cte_walk_fuel_irrelevant : type_of% @cteWalk_fuel_irrelevant := @cteWalk
 /-- the normalisation ignores letter case and the amount of inner whitespace -/
 theorem create_or_replace_normalised :
     kwNorm (txt "create  Or\n\tREPLACE") = txt "CREATE OR REPLACE" ∧ kwNorm (txt "SeLeCt") = txt "SELECT" := by
+  constructor <;> decide +kernel
+
+/-- **the leading keyword survives grouping**: for every flat statement whose first token that is neither whitespace nor comment is a
+DML/DDL keyword (and `LeadHyp`), after `group` the first top-level child that is neither whitespace nor a comment is still that very leaf -/
+theorem leading_keyword_survives_grouping : type_of% @Sql.leading_kw_survives := @Sql.leading_kw_survives
+
+/-- **get_type() after grouping** is the normalised spelling of that keyword — for every continuation of the statement -/
+theorem get_type_after_grouping : type_of% @Sql.leading_kw_getType := @Sql.leading_kw_getType
+
+/-- non-vacuity: `LeadHyp` holds for an ordinary statement with leading comment and odd casing, and fails for the absorbed shapes -/
+example : LeadHyp kwNorm [⟨T.CommentMultiline, txt "/* c */"⟩, ⟨T.Whitespace, txt " "⟩, ⟨T.DML, txt "SeLeCt"⟩, ⟨T.Whitespace, txt " "⟩,
+    ⟨T.Name, txt "a"⟩] = true ∧
+    LeadHyp kwNorm [⟨T.DML, txt "select"⟩, ⟨T.Punctuation, txt "::"⟩, ⟨T.Name, txt "int"⟩] = false := by
   constructor <;> decide +kernel
 
 end Sql.C18
